@@ -52,6 +52,14 @@ Definition vin_consistent (i : vin) : bool :=
                                && match v_exports i with None => true | _ => false end) &&
   negb (v_pmod i && v_pcls i).
 
+(* what a visit_<kind> method of the Visitor is (Gen/C01_dispatch.v lists the methods that exist) *)
+Inductive handler :=
+| HModule | HClass
+| HFunction (labels : list string)     (* handle_function(node, labels): the labels a definition starts with *)
+| HAttribute | HAnnAttribute | HAugAssign | HImport | HImportFrom | HIf.
+(* how assignments.py builds the name of a target node *)
+Inductive name_builder := NBName | NBAttribute.
+
 Definition str_mem (s : string) (l : list string) : bool := existsb (String.eqb s) l.
 Fixpoint assoc_labels (k : string) (l : list (string * list string)) : option (list string) :=
   match l with [] => None | (k', v) :: r => if String.eqb k k' then Some v else assoc_labels k r end.
